@@ -400,7 +400,16 @@ def main():
     if violations:
         for unit, f in violations:
             cex[(unit, f['fn'], f['kind'])] = vcex.find_counterexample(pid, unit, f, seed)
+    probes_run = 0
     if tier == 'thorough' and not violations:
+        probes_run, bad = vcex.run_all_probes(pid, seed)
+        for b in bad:
+            if b.get('infra'):
+                undecided.append(b['output'])
+                continue
+            f = dict(fn='probe:' + b['scenario'].get('kind', '?'), src='(real crate, replay binary)', src_line=0, kind='conformance', msg='a probe scenario fails on the real code', text=b['output'])
+            violations.append(('probes', f))
+            cex[('probes', f['fn'], f['kind'])] = dict(confirmed_on_real_code=True, scenario=b['scenario'], replay_output=b['output'])
         kani_res = vcex.thorough(pid, units, seed)
         for kr in kani_res:
             if kr.get('status') == 'refuted':
@@ -456,6 +465,7 @@ def main():
             undecided=undecided,
             known_findings=[dict(id=k['id'], fn=f['fn'], kind=f['kind']) for k, f in known_hits] + known_replayed,
             not_decided=pinfo.get('not_decided', []),
+            probes_replayed_on_real_code=probes_run,
         ),
         assumptions=assumptions + pinfo.get('assumptions', []),
         wall_s=round(time.time() - t0, 2),
